@@ -80,31 +80,38 @@ theorem siftUp_sched (cmp : Nat → Nat → Int) : ∀ (i : Nat) (b : Buf Nat) (
     · rw [siftUp_neg cmp b i m hc]
 
 /-! ## allocator events of the operations -/
-theorem expand_libc (grow : Nat → Nat) (q : PQueue) (m : Mem) : (expandCapacity grow q m).2.2.libc = m.libc := by
+/-- `expand_capacity` touches only the counters of the queue's own triple -/
+theorem expand_other (grow : Nat → Nat) (q : PQueue) (m : Mem) :
+    Mem.otherSame m (expandCapacity grow q m).2.2 q.triple := by
   unfold expandCapacity; dsimp only
   split
-  · rfl
+  · exact Mem.otherSame_refl _ _
   · split
-    · rfl
-    · cases ha : m.alloc.1
-      · simp [(alloc_false_fields m ha).2.2.1]
-      · simp [(free_fields _).2.2.1, (alloc_true_fields m ha).2.2.1]
+    · exact Mem.otherSame_refl _ _
+    · split
+      · exact Mem.otherSame_allocT m q.triple
+      · exact Mem.otherSame_trans (Mem.otherSame_trans (Mem.otherSame_allocT m q.triple) (Mem.otherSame_check _ _ _))
+          (Mem.otherSame_freeT _ _)
 
 /-- exact outcome of `expand_capacity` in terms of its guards and the allocator's answer -/
-theorem expand_status (grow : Nat → Nat) (q : PQueue) (m : Mem) :
+theorem expand_status (grow : Nat → Nat) (q : PQueue) (m : Mem) (ht : q.triple = .conf) :
     ((expandCapacity grow q m).1 = .errAlloc ↔
       (q.capacity ≠ Gen.CC_MAX_ELEMENTS ∧ ¬ newCapacity grow q > Gen.CC_MAX_ELEMENTS / ptrSize ∧ m.alloc.1 = false)) ∧
     ((expandCapacity grow q m).1 = .errMaxCapacity ↔
       (q.capacity = Gen.CC_MAX_ELEMENTS ∨ newCapacity grow q > Gen.CC_MAX_ELEMENTS / ptrSize)) := by
   unfold expandCapacity; dsimp only
+  rw [ht]; simp only [Mem.allocT_conf, Mem.freeT_conf]
   by_cases h1 : q.capacity = Gen.CC_MAX_ELEMENTS
   · simp [h1]
   · by_cases h2 : newCapacity grow q > Gen.CC_MAX_ELEMENTS / ptrSize
     · simp [h1, h2]
-    · cases ha : m.alloc.1 <;> simp [h1, h2]
+    · by_cases ha : m.alloc.1 = true
+      · simp [h1, h2, ha]
+      · have ha' : m.alloc.1 = false := by simpa using ha
+        simp [h1, h2, ha']
 
 /-- allocator counters of `expand_capacity` -/
-theorem expand_counts (grow : Nat → Nat) (q : PQueue) (m : Mem) :
+theorem expand_counts (grow : Nat → Nat) (q : PQueue) (m : Mem) (ht : q.triple = .conf) :
     ((expandCapacity grow q m).1 = .ok → (expandCapacity grow q m).2.2.nalloc = m.nalloc + 1 ∧
         (expandCapacity grow q m).2.2.nrefused = m.nrefused ∧
         (expandCapacity grow q m).2.1.capacity = newCapacity grow q) ∧
@@ -112,19 +119,21 @@ theorem expand_counts (grow : Nat → Nat) (q : PQueue) (m : Mem) :
         (expandCapacity grow q m).2.2.nrefused = m.nrefused + 1) ∧
     ((expandCapacity grow q m).1 = .errMaxCapacity → (expandCapacity grow q m).2.2 = m) := by
   unfold expandCapacity; dsimp only
+  rw [ht]; simp only [Mem.allocT_conf, Mem.freeT_conf]
   by_cases h1 : q.capacity = Gen.CC_MAX_ELEMENTS
   · simp [h1]
   · by_cases h2 : newCapacity grow q > Gen.CC_MAX_ELEMENTS / ptrSize
     · simp [h1, h2]
-    · cases ha : m.alloc.1
-      · have := alloc_false_fields m ha
-        simp [h1, h2, this]
+    · by_cases ha : m.alloc.1 = true
       · have := alloc_true_fields m ha
-        simp [h1, h2, (free_fields _).1, (free_fields _).2.1, (check_fields _ _).1, (check_fields _ _).2.1, this]
+        simp [h1, h2, ha, (free_fields _).1, (free_fields _).2.1, (check_fields _ _).1, (check_fields _ _).2.1, this]
+      · have ha' : m.alloc.1 = false := by simpa using ha
+        have := alloc_false_fields m ha'
+        simp [h1, h2, ha', this]
 
 /-- `cc_pqueue_push`: status, and allocator counters, in every case -/
-theorem push_counts {cmp : Nat → Nat → Int} (tp : TotalPreorder cmp) (grow : Nat → Nat) (hg : GrowOk grow)
-    (q : PQueue) (x : Nat) (m : Mem) (h : Inv' cmp q) (hl : 0 < m.live) :
+theorem push_counts {cmp : Nat → Nat → Int} (tp : TotalPreorder cmp) (grow : Nat → Nat)
+    (q : PQueue) (x : Nat) (m : Mem) (h : Inv' cmp q) (ht : q.triple = .conf) (hl : 0 < m.live) :
     -- no growth attempted or growth impossible: the ledger record is untouched
     (((q.size < q.capacity ∧ (push cmp grow q x m).1 = .ok) ∨ (push cmp grow q x m).1 = .errMaxCapacity) ∧
         (push cmp grow q x m).2.2 = m ∧ (push cmp grow q x m).2.1.capacity = q.capacity) ∨
@@ -137,11 +146,13 @@ theorem push_counts {cmp : Nat → Nat → Int} (tp : TotalPreorder cmp) (grow :
         (push cmp grow q x m).2.2.nalloc = m.nalloc ∧ (push cmp grow q x m).2.2.nrefused = m.nrefused + 1 ∧
         (push cmp grow q x m).2.1 = q) := by
   have hsc := h.1.1
+  have hl' : 0 < m.liveT q.triple := by rw [ht]; exact hl
+  have hconv : (m.allocT q.triple).1 = m.alloc.1 := by rw [ht]; rfl
   rw [push_eq]
   by_cases hfull : q.size ≥ q.capacity
   · simp only [hfull, if_true]
-    have hcnt := expand_counts grow q m
-    rcases expand_spec cmp grow q m hg h hl with ⟨e1, e2, e3, e4, _, _, _, ea⟩ | ⟨e1, e2, _, _⟩
+    have hcnt := expand_counts grow q m ht
+    rcases expand_spec cmp grow q m h hl' with ⟨e1, e2, e3, e4, _, _, _, ea⟩ | ⟨e1, e2, _, _⟩
     · have : ((expandCapacity grow q m).1 != .ok) = false := by rw [e1]; rfl
       simp only [this, Bool.false_eq_true, if_false]
       have hroom : (expandCapacity grow q m).2.1.size < (expandCapacity grow q m).2.1.capacity := by omega
@@ -149,14 +160,14 @@ theorem push_counts {cmp : Nat → Nat → Int} (tp : TotalPreorder cmp) (grow :
       right; left
       rw [hs.2.2.2.2.2, hs.2.2.2.2.1]
       have := hcnt.1 e1
-      exact ⟨hs.1, by omega, ea, this.1, this.2.1, this.2.2⟩
+      exact ⟨hs.1, by omega, hconv ▸ ea, this.1, this.2.1, this.2.2⟩
     · have : ((expandCapacity grow q m).1 != .ok) = true := by
         rcases e1 with ⟨e1, _⟩ | e1 <;> rw [e1] <;> rfl
       simp only [this, if_true]
       rcases e1 with ⟨e1, ea⟩ | e1
       · right; right
         have := hcnt.2.1 e1
-        exact ⟨e1, by omega, ea, this.1, this.2, e2⟩
+        exact ⟨e1, by omega, hconv ▸ ea, this.1, this.2, e2⟩
       · left
         exact ⟨Or.inr e1, hcnt.2.2 e1, by rw [e2]⟩
   · simp only [hfull, if_false]
@@ -164,32 +175,36 @@ theorem push_counts {cmp : Nat → Nat → Int} (tp : TotalPreorder cmp) (grow :
     left
     exact ⟨Or.inl ⟨by omega, hs.1⟩, hs.2.2.2.2.2, hs.2.2.2.2.1⟩
 
-theorem push_libc {cmp : Nat → Nat → Int} (tp : TotalPreorder cmp) (grow : Nat → Nat) (hg : GrowOk grow)
-    (q : PQueue) (x : Nat) (m : Mem) (h : Inv' cmp q) (hl : 0 < m.live) :
-    (push cmp grow q x m).2.2.libc = m.libc := by
+/-- `cc_pqueue_push` touches only the counters of the queue's own triple: a queue on the configured
+allocators never causes a C-library event, a queue on the C library never touches the configured
+allocator's counters, refusal counter or schedule -/
+theorem push_other {cmp : Nat → Nat → Int} (tp : TotalPreorder cmp) (grow : Nat → Nat)
+    (q : PQueue) (x : Nat) (m : Mem) (h : Inv' cmp q) (hl : 0 < m.liveT q.triple) :
+    Mem.otherSame m (push cmp grow q x m).2.2 q.triple := by
   rw [push_eq]
   by_cases hfull : q.size ≥ q.capacity
   · simp only [hfull, if_true]
-    rcases expand_spec cmp grow q m hg h hl with ⟨e1, e2, e3, e4, _, _, _, _⟩ | ⟨e1, _, _, _⟩
+    rcases expand_spec cmp grow q m h hl with ⟨e1, e2, e3, e4, _, _, _, _⟩ | ⟨e1, _, _, _⟩
     · have : ((expandCapacity grow q m).1 != .ok) = false := by rw [e1]; rfl
       simp only [this, Bool.false_eq_true, if_false]
       have hroom : (expandCapacity grow q m).2.1.size < (expandCapacity grow q m).2.1.capacity := by
         have := h.1.1; omega
       rw [(storeSift_spec tp _ x (expandCapacity grow q m).2.2 e2 hroom).2.2.2.2.2]
-      exact expand_libc grow q m
+      exact expand_other grow q m
     · have : ((expandCapacity grow q m).1 != .ok) = true := by
         rcases e1 with ⟨e1, _⟩ | e1 <;> rw [e1] <;> rfl
       simp only [this, if_true]
-      exact expand_libc grow q m
+      exact expand_other grow q m
   · simp only [hfull, if_false]
     rw [(storeSift_spec tp q x m h (by omega)).2.2.2.2.2]
+    exact Mem.otherSame_refl _ _
 
 /-- statuses and resulting queue of `push` depend on the ledger only through its schedule -/
 theorem push_indep (cmp : Nat → Nat → Int) (grow : Nat → Nat) (q : PQueue) (x : Nat) (m m' : Mem)
     (hs : m.sched = m'.sched) :
     (push cmp grow q x m).1 = (push cmp grow q x m').1 ∧ (push cmp grow q x m).2.1 = (push cmp grow q x m').2.1 ∧
     (push cmp grow q x m).2.2.sched = (push cmp grow q x m').2.2.sched := by
-  have ha := alloc_sched_congr m m' hs
+  have ha := Mem.allocT_sched_congr m m' q.triple hs
   have he : (expandCapacity grow q m).1 = (expandCapacity grow q m').1 ∧
       (expandCapacity grow q m).2.1 = (expandCapacity grow q m').2.1 ∧
       (expandCapacity grow q m).2.2.sched = (expandCapacity grow q m').2.2.sched := by
@@ -199,9 +214,9 @@ theorem push_indep (cmp : Nat → Nat → Int) (grow : Nat → Nat) (q : PQueue)
     · split
       · exact ⟨rfl, rfl, hs⟩
       · rw [ha.1]
-        cases m'.alloc.1
+        cases (m'.allocT q.triple).1
         · exact ⟨rfl, rfl, ha.2⟩
-        · simp only [Bool.not_true, Bool.false_eq_true, if_false, (free_fields _).2.2.2, Mem.check_sched]
+        · simp only [Bool.not_true, Bool.false_eq_true, if_false, Mem.freeT_sched, Mem.check_sched]
           exact ⟨trivial, trivial, ha.2⟩
   have hst : ∀ (q : PQueue) (m m' : Mem), m.sched = m'.sched →
       (storeSift cmp q x m).1 = (storeSift cmp q x m').1 ∧ (storeSift cmp q x m).2.1 = (storeSift cmp q x m').2.1 ∧
@@ -227,12 +242,39 @@ theorem push_indep (cmp : Nat → Nat → Int) (grow : Nat → Nat) (q : PQueue)
 theorem pop_indep (cmp : Nat → Nat → Int) (q : PQueue) (m m' : Mem) :
     (pop cmp q m).1 = (pop cmp q m').1 ∧ (pop cmp q m).2.1 = (pop cmp q m').2.1 ∧
     (pop cmp q m).2.2.1 = (pop cmp q m').2.2.1 := by
-  unfold pop
+  unfold pop popOut
   split
   · exact ⟨rfl, rfl, rfl⟩
   · dsimp only
     refine ⟨rfl, rfl, ?_⟩
     rw [heapify_indep cmp (q.size - 1) _ 0 _ (m.check _) (m'.check _) rfl]
+
+/-- `heapify` leaves the schedule alone -/
+theorem heapify_sched (cmp : Nat → Nat → Int) (n : Nat) : ∀ (d i : Nat) (b : Buf Nat) (m : Mem), n - i = d →
+    (heapify cmp b n i m).2.sched = m.sched := by
+  intro d
+  induction d using Nat.strongRecOn with
+  | _ d ih =>
+    intro i b m hd
+    by_cases hsmall : n ≤ 1
+    · rw [heapify_small _ _ _ _ _ hsmall]
+    · rw [heapify, if_neg hsmall]
+      dsimp only
+      by_cases hbig : pick cmp b n i ≠ i
+      · rw [dif_pos hbig]
+        have hpc := pick_cases cmp b n i
+        simp only [ccLeft, ccRight] at hpc
+        rw [ih (n - pick cmp b n i) (by omega) _ _ _ rfl]; simp
+      · rw [dif_neg hbig]; simp
+
+theorem pop_sched (cmp : Nat → Nat → Int) (q : PQueue) (m m' : Mem) (hs : m.sched = m'.sched) :
+    (pop cmp q m).2.2.2.sched = (pop cmp q m').2.2.2.sched := by
+  simp only [pop, popOut]
+  split
+  · exact hs
+  · dsimp only
+    rw [heapify_sched cmp (q.size - 1) _ 0 _ _ rfl, heapify_sched cmp (q.size - 1) _ 0 _ _ rfl]
+    simp [hs]
 
 theorem top_indep (q : PQueue) (m m' : Mem) : (q.top m).1 = (q.top m').1 ∧ (q.top m).2.1 = (q.top m').2.1 := by
   unfold top; split <;> exact ⟨rfl, rfl⟩
@@ -248,9 +290,9 @@ theorem newCapacity_double (grow : Nat → Nat) (q : PQueue) (hd : ∀ c, 2 * c 
 /-- invariant of a run of pushes under a growth law that at least doubles: with `c0`/`n0` the
 capacity and the allocation counter at the start, after `k` successful growths the capacity is at
 least `c0 * 2^k`, and the size exceeds `c0 * 2^(k-1)` -/
-theorem pushAll_doubling {cmp : Nat → Nat → Int} (tp : TotalPreorder cmp) (grow : Nat → Nat) (hg : GrowOk grow)
+theorem pushAll_doubling {cmp : Nat → Nat → Int} (tp : TotalPreorder cmp) (grow : Nat → Nat)
     (hd : ∀ c, 2 * c ≤ grow c) (c0 n0 : Nat) :
-    ∀ (xs : List Nat) (q : PQueue) (m : Mem), Inv' cmp q → 0 < m.live →
+    ∀ (xs : List Nat) (q : PQueue) (m : Mem), Inv' cmp q → q.triple = .conf → 0 < m.live →
       n0 ≤ m.nalloc → c0 * 2 ^ (m.nalloc - n0) ≤ q.capacity →
       (1 ≤ m.nalloc - n0 → c0 * 2 ^ (m.nalloc - n0 - 1) < q.size) →
       Inv' cmp (pushAll cmp grow q xs m).1 ∧ n0 ≤ (pushAll cmp grow q xs m).2.nalloc ∧
@@ -260,12 +302,15 @@ theorem pushAll_doubling {cmp : Nat → Nat → Int} (tp : TotalPreorder cmp) (g
       (pushAll cmp grow q xs m).1.size ≤ q.size + xs.length ∧ q.capacity ≤ (pushAll cmp grow q xs m).1.capacity := by
   intro xs
   induction xs with
-  | nil => intro q m h _ h1 h2 h3; exact ⟨h, h1, h2, h3, by simp [pushAll], Nat.le_refl _⟩
+  | nil => intro q m h _ _ h1 h2 h3; exact ⟨h, h1, h2, h3, by simp [pushAll], Nat.le_refl _⟩
   | cons x xs ih =>
-    intro q m h hl h1 h2 h3
+    intro q m h ht hl h1 h2 h3
     simp only [pushAll]
-    have hm := push_mem tp grow hg q x m h hl
-    have hsp := push_spec tp grow hg q x m h hl
+    have hl' : 0 < m.liveT q.triple := by rw [ht]; exact hl
+    have hm := push_mem tp grow q x m h hl'
+    rw [ht] at hm
+    have hsp := push_spec tp grow q x m h hl'
+    have ht' := push_triple cmp grow q x m
     have hinv' : Inv' cmp (push cmp grow q x m).2.1 := by
       rcases hsp with ⟨_, e, _⟩ | ⟨_, e⟩
       · exact e
@@ -279,7 +324,7 @@ theorem pushAll_doubling {cmp : Nat → Nat → Int} (tp : TotalPreorder cmp) (g
         (1 ≤ (push cmp grow q x m).2.2.nalloc - n0 →
           c0 * 2 ^ ((push cmp grow q x m).2.2.nalloc - n0 - 1) < (push cmp grow q x m).2.1.size) ∧
         q.capacity ≤ (push cmp grow q x m).2.1.capacity := by
-      rcases push_counts tp grow hg q x m h hl with ⟨_, k1, k2⟩ | ⟨kok, kfull, _, k1, _, k3⟩ | ⟨_, _, _, k1, _, k3⟩
+      rcases push_counts tp grow q x m h ht hl with ⟨_, k1, k2⟩ | ⟨kok, kfull, _, k1, _, k3⟩ | ⟨_, _, _, k1, _, k3⟩
       · rw [k1, k2]
         exact ⟨h1, h2, fun hh => Nat.lt_of_lt_of_le (h3 hh) hsize.2, Nat.le_refl _⟩
       · have hsz : (push cmp grow q x m).2.1.size = q.size + 1 := by
@@ -294,17 +339,18 @@ theorem pushAll_doubling {cmp : Nat → Nat → Int} (tp : TotalPreorder cmp) (g
         · rw [e, Nat.add_sub_cancel]; omega
       · rw [k1, k3]
         exact ⟨h1, h2, h3, Nat.le_refl _⟩
-    have := ih (push cmp grow q x m).2.1 (push cmp grow q x m).2.2 hinv' (by rw [hm.1]; exact hl) key.1 key.2.1 key.2.2.1
+    have := ih (push cmp grow q x m).2.1 (push cmp grow q x m).2.2 hinv' (by rw [ht', ht]) (by have := hm.1; simp only [Mem.liveT_conf] at this; rw [this]; exact hl) key.1 key.2.1 key.2.2.1
     obtain ⟨t1, t2, t3, t4, t5, t6⟩ := this
     refine ⟨t1, t2, t3, t4, ?_, by omega⟩
     simp only [List.length_cons]; omega
 
 /-- **logarithmic number of re-allocations**: pushing `n` elements performs at most
 `log2 (size + n) + 1` successful allocator calls when every growth step at least doubles -/
-theorem pushAll_realloc_log {cmp : Nat → Nat → Int} (tp : TotalPreorder cmp) (grow : Nat → Nat) (hg : GrowOk grow)
-    (hd : ∀ c, 2 * c ≤ grow c) (q : PQueue) (xs : List Nat) (m : Mem) (h : Inv' cmp q) (hl : 0 < m.live) :
+theorem pushAll_realloc_log {cmp : Nat → Nat → Int} (tp : TotalPreorder cmp) (grow : Nat → Nat)
+    (hd : ∀ c, 2 * c ≤ grow c) (q : PQueue) (xs : List Nat) (m : Mem) (h : Inv' cmp q) (ht : q.triple = .conf)
+    (hl : 0 < m.live) :
     (pushAll cmp grow q xs m).2.nalloc - m.nalloc ≤ Nat.log2 (q.size + xs.length) + 1 := by
-  obtain ⟨_, t2, t3, t4, t5, _⟩ := pushAll_doubling tp grow hg hd q.capacity m.nalloc xs q m h hl (Nat.le_refl _)
+  obtain ⟨_, t2, t3, t4, t5, _⟩ := pushAll_doubling tp grow hd q.capacity m.nalloc xs q m h ht hl (Nat.le_refl _)
     (by simp) (fun hh => by omega)
   by_cases hk : (pushAll cmp grow q xs m).2.nalloc - m.nalloc = 0
   · omega
